@@ -82,9 +82,16 @@ pub(crate) struct TcpChannelTask {
     client_loop: ClientLoop,
     listener: Box<dyn Listener<ClientState>>,
     channel_logging: ChannelLoggingMode,
+    #[cfg(feature = "verif-hooks")]
+    verif_connector: Option<std::sync::Arc<dyn crate::verif::Connector>>,
 }
 
 impl TcpChannelTask {
+    #[cfg(feature = "verif-hooks")]
+    pub(crate) fn set_verif_connector(&mut self, c: std::sync::Arc<dyn crate::verif::Connector>) {
+        self.verif_connector = Some(c);
+    }
+
     pub(crate) fn new(
         host: HostAddr,
         rx: crate::channel::Receiver<Command>,
@@ -106,6 +113,8 @@ impl TcpChannelTask {
             ),
             listener,
             channel_logging: options.channel_logging,
+            #[cfg(feature = "verif-hooks")]
+            verif_connector: None,
         }
     }
 
@@ -146,6 +155,18 @@ impl TcpChannelTask {
 
     async fn try_connect_and_run(&mut self) -> Result<(), StateChange> {
         self.listener.update(ClientState::Connecting).get().await;
+        #[cfg(feature = "verif-hooks")]
+        if let Some(connector) = self.verif_connector.clone() {
+            // same race as `connect()`, but the stream comes from the harness
+            let res = tokio::select! {
+                res = connector.connect() => Ok(res),
+                res = self.client_loop.fail_requests() => Err(res),
+            }?;
+            return match res {
+                Err(err) => self.handle_failed_connection(err).await,
+                Ok(io) => self.run_connection(PhysLayer::new_verif(io)).await,
+            };
+        }
         match self.connect().await? {
             Err(err) => self.handle_failed_connection(err).await,
             Ok(stream) => {
